@@ -61,10 +61,14 @@ string mkmsg(int id, int len) {
 // callbacks for efun-driven frames
 string cb_script;
 int run_ret_cb(mixed el, string script) { run(script); return 1; }
-int cmp_cb(mixed x, mixed y) { if (cb_script) { string t; t = cb_script; cb_script = 0; run(t); } return x > y; }
+int cmp_cb(mixed x, mixed y) { if (cb_script) { string t; t = cb_script; cb_script = 0; run(t); } return x > y ? 1 : (x < y ? -1 : 0); }
 mixed fp_target(string script) { run(script); return 7; }
 varargs mixed fp_target3(string script, int x, int y) { run(script); return x + y; }
 void spread_call(mixed *args) { fp_target3(args...); }
+int run_ret1(string script) { run(script); return 1; }
+varargs mixed fp_target4(int x, int y, int z, int w) { return x + "," + y + "," + z + "," + w; }
+// an expanded argument array followed by an argument whose evaluation runs a script (and may fail)
+void spread_call2(int *args, string script) { rec("SPREAD2 " + fp_target4(args..., run_ret1(script))); }
 void ed_exit() { rec("EDEXIT " + me()); }
 int ed_write_calls;
 int ed_write(string fname, int after) { rec("EDWRITE " + me() + " " + after); hook("edw"); return 1; }
@@ -414,6 +418,29 @@ void xop(string *a) {
   }
 }
 
+// efun callback frames; the result of each efun is recorded: it does not depend on what the callbacks' scripts do, so a
+// caught error inside a callback (possibly inside a nested efun of the same kind) must not change it
+void eop(string *a) {
+  mixed r; int n;
+  switch (a[0]) {
+  case "filter":  // filter <n> <script>
+    n = to_int(a[1]);
+    r = filter(allocate(n), "run_ret_cb", this_object(), sub(implode(a[2..], " ")));
+    rec("EFRES filter " + (sizeof(r) == n ? "ok" : sizeof(r) + "/" + n));
+    break;
+  case "map":
+    n = to_int(a[1]);
+    r = map(allocate(n), (: run_ret_cb($1, $2) :), sub(implode(a[2..], " ")));
+    rec("EFRES map " + (sizeof(r) == n && sizeof(r - ({ 1 })) == 0 ? "ok" : save_variable(r)));
+    break;
+  case "sort":
+    cb_script = sub(implode(a[1..], " "));
+    r = sort_array(({ 3, 1, 2, 5, 4 }), "cmp_cb", this_object());
+    rec("EFRES sort " + (save_variable(r) == "({1,2,3,4,5,})" ? "ok" : save_variable(r)));
+    break;
+  }
+}
+
 // uid operations (separate function: the command interpreter is at the local variable limit)
 void uop(string *a) {
   string v; object o;
@@ -611,15 +638,11 @@ void do_op(string op) {
   case "spread":  // spread <script>: call with an argument array expanded by "..."
     spread_call(({ sub(implode(a[1..], " ")), 1, 2 }));
     break;
-  case "filter":  // filter <n> <script>: efun callback frames
-    filter(allocate(to_int(a[1])), "run_ret_cb", this_object(), sub(implode(a[2..], " ")));
+  case "filter": case "map": case "sort":
+    eop(a);
     break;
-  case "map":
-    map(allocate(to_int(a[1])), (: run_ret_cb($1, $2) :), sub(implode(a[2..], " ")));
-    break;
-  case "sort":
-    cb_script = sub(implode(a[1..], " "));
-    sort_array(({ 3, 1, 2 }), "cmp_cb", this_object());
+  case "spread2": // spread2 <script>: f(args..., g(script)) - the script runs between the expansion and the call
+    spread_call2(({ 5, 6 }), sub(implode(a[1..], " ")));
     break;
   case "catch":   // catch <id> <script>: LPC catch with a frame check afterwards
     {
